@@ -1,6 +1,7 @@
 """C15 — normalisation maps superadditive games into [0,1] and is invertible (exact reals)."""
 from __future__ import annotations
 
+import os
 import random
 from fractions import Fraction
 
@@ -8,14 +9,17 @@ from . import families as F
 
 ID = "C15"
 HEAVY = False
-BUDGET_S = {"quick": 150, "thorough": 1500}
-TIMEOUT_MS = {"quick": 30000, "thorough": 300000}
+BUDGET_S = {"quick": 230, "thorough": 3000}
+TIMEOUT_MS = {"quick": 150000, "thorough": 600000}
+MAX_TASK_S = {"quick": 220, "thorough": 2800}
 ASSUMPTIONS = [
     "exact real arithmetic (values kept as fractions over the symbolic surplus so the queries stay linear)",
     "value-table games: any superadditive game (textbook constraints), negative / non-zero-normalised included",
+    "C15-fp: ONE float-semantics kernel - the real additive generator and normalize_game at n=3 with z3 Float64 terms (round-to-nearest-even), "
+    "draws in [0,1); asks whether a normalised value can leave [-1e-9, 1+1e-9]",
     "graph games: arbitrary real matrix whose strictly-upper-triangular weights are >= 0 (diagonal and lower triangle free: they must be ignored)",
 ]
-OUTSIDE = ["float rounding (the additive-generator residue of C15-fp is discussed in DESIGN.md; not decided by this check)", "n>=6"]
+OUTSIDE = ["float rounding other than the additive n=3 kernel (C15-fp)", "n>=6"]
 STUBS = ["np proxy", "SymArray"]
 
 
@@ -24,8 +28,14 @@ def bounds_text(tier):
         "value table n=2..5, graph n=2..5, both paths"
 
 
+FP_SIG = "C15/fp64/additive-residue"
+# a float counterexample must also be a game the library itself accepts as superadditive; that acceptance test is evaluated only in the
+# concrete replay (is_superadditive on the float game), so a solver model that fails it is dropped as inconclusive, not as a harness error
+SOFT_SIGNATURES = (FP_SIG,)
+
+
 def tasks(tier, seed):
-    out = []
+    out = [{"key": "fp64/additive/n3", "kind": "fp64", "n": 3}]
     nmax = 5 if tier == "thorough" else 4
     for n in range(2, nmax + 1):
         out.append({"key": f"icg/n{n}", "kind": "icg", "n": n})
@@ -45,6 +55,11 @@ def _m(params, inp):
 
 def setup(params, inp, lg):
     n = params["n"]
+    if params["kind"] == "fp64":
+        ws = [inp.f64(f"w{i}") for i in range(n)]
+        if lg.mode == "sym":
+            return [(w >= 0.0) & (w < 1.0) for w in ws]        # numpy's Generator.random(): [0, 1)
+        return [0.0 <= float(w) < 1.0 for w in ws]
     if params["kind"] == "icg":
         return F.sa_constraints(_v(params, inp), n, lg)
     m = _m(params, inp)
@@ -77,6 +92,15 @@ def scenario(pk, params, inp):
     n = params["n"]
     C = pk.coalitions.Coalition
     nz = pk.normalize
+    if params["kind"] == "fp64":
+        # float64 semantics (z3 QF_FP, round-to-nearest-even) through the REAL additive generator and normalize_game
+        draws = iter(range(n))
+        g = pk.generators.additive(n, None, weights_dist_fn=lambda _g: inp.f64(f"w{next(draws)}"))
+        raw = [g.get_value(C(S)) for S in range(2 ** n)]
+        if not pk.symbolic and not pk.game_properties.is_superadditive(g):
+            inp.assume(False)          # not a game "the library itself accepts as superadditive"
+        info = nz.normalize_game(g)
+        return {"raw": raw, "surplus": info[0], "norm": [g.get_value(C(S)) for S in range(2 ** n)]}
     if params["kind"] == "icg":
         v = _v(params, inp)
         g = _full(pk, n, v)
@@ -104,6 +128,29 @@ def scenario(pk, params, inp):
 def claims(params, inp, out, lg):
     n = params["n"]
     N = 2 ** n - 1
+    if params["kind"] == "fp64":
+        cl = []
+        lo, hi = -1e-9, 1.0 + 1e-9          # a margin: rounding dust of 1e-40 is not the defect
+        oks = []
+        for S in range(2 ** n):
+            x = out["norm"][S]
+            if lg.mode == "sym":
+                from symx.values import SymF64
+                oks.append(lg.And((x >= lo), (x <= hi)) if isinstance(x, SymF64) else (lo <= float(x) <= hi))
+            else:
+                oks.append(bool(lo <= float(x) <= hi))
+        # ONE query for the whole vector: the solver is free to pick the coalition that is easiest to push out
+        quick = os.environ.get("VERIF_TIER", "quick") == "quick"
+        divided = True
+        if lg.mode == "sym":
+            import z3
+            from symx.values import SymF64
+            g = out["norm"][N]
+            divided = isinstance(g, SymF64) and z3.is_app_of(g.t, z3.Z3_OP_FPA_DIV)
+        # the path on which the guard fired (no division) only leaves residues of the order of 1 ulp: give it a short budget
+        budget = (100 if quick else 1200) if divided else (15 if quick else 600)
+        cl.append(("float-normalised-values-in-unit-interval", lg.And(oks), FP_SIG, {"external": "cvc5", "timeout_s": budget}))
+        return cl
     zero, one = lg.const(0), lg.const(1)
     cl = []
     if params["kind"] == "icg":
@@ -148,6 +195,8 @@ def claims(params, inp, out, lg):
 
 def canaries(params, inp, out, lg):
     n = params["n"]
+    if params["kind"] == "fp64":
+        return []
     # false on purpose: every normalised value would have to be at most 1/2
     return [("canary-values-below-half", lg.And([lg.le(out["norm"][S], lg.const(Fraction(1, 2))) for S in range(2 ** n)]))]
 
@@ -158,6 +207,8 @@ CANARY_TASKS = 2
 def test_vectors(params):
     n = params["n"]
     rnd = random.Random(params["key"])
+    if params["kind"] == "fp64":
+        return [{f"w{i}": float(rnd.random()).hex() for i in range(n)} for _ in range(3)]
     if params["kind"] == "icg":
         return [{f"v{S}": g[S] for S in range(1, 2 ** n)} for g in F.sa_test_games(n, 4, 3)]
     vecs = []
